@@ -206,8 +206,8 @@ var def = pbt.Def[Case]{Name: "publisher-model", Gen: gen, Run: judge}
 
 func TestProp(t *testing.T) {
 	outerT = t
-	pbt.Check(t, run, def, 40000, 5000000)
-	pbt.Check(t, run, defRace, 8000, 500000)
+	pbt.Check(t, run, def, 40000, 3000000)
+	pbt.Check(t, run, defRace, 8000, 300000)
 }
 
 func TestReplay(t *testing.T) {
